@@ -177,6 +177,7 @@ def real_headers(rng, names, edges, funcs_only, force_hidden=False):
             out.append("};")
             for v in deps:
                 out.append('#include "%s.h"' % names[v])
+            used = []
             for n, v in enumerate(deps):
                 h = how[(u, v)]
                 base = rng.choice(classes[v]) if acyclic else classes[v][0]
@@ -194,8 +195,15 @@ def real_headers(rng, names, edges, funcs_only, force_hidden=False):
                     classes[u].append("%s_D%d" % (U, n))
                 if h in ("typedef", "both"):
                     out.append("typedef %s %s_T%d;" % (rng.choice(classes[v]) if acyclic else classes[v][0], U, n))
+                    if rng.chance(1, 2):
+                        # a second level, and a use in a published signature: that is what makes interrogate record the
+                        # typedef, and the generated library code then adds it to the module as a name of the other library's class
+                        out.append("typedef %s_T%d %s_TT%d;" % (U, n, U, n))
+                        used.append("%s_TT%d" % (U, n))
+                    else:
+                        used.append("%s_T%d" % (U, n))
             # a publish block that ends: a file-scope "__published:" would stay in effect for whatever includes this header
-            out += ["__begin_publish", "int %s_function(int a);" % names[u], "__end_publish"]
+            out += ["__begin_publish", "int %s_function(int a);" % names[u]] + ["%s *use_%s(int a);" % (t, t.lower()) for t in used] + ["__end_publish"]
         out.append("#endif")
         files["%s/%s.h" % (names[u], names[u])] = "\n".join(out) + "\n"
     return files
@@ -365,6 +373,20 @@ def model_graph(dbs):
         if lib and mod.decode() == MODULE:
             libs.add(lib.decode())      # published constants are added to the module by the library's BuildInstants
     edges = set()
+    # "... or are typedefs of its classes": every top-level typedef of the module (the generated library code adds each one
+    # to the module as a name of the class, global or not), followed to the end of the chain
+    for i, t in mc.recs["types"].items():
+        lib, mod = mc.owner[("types", i)]
+        if not (t["flags"] & F.TF_TYPEDEF) or (t["flags"] & F.TF_NESTED) or mod.decode() != MODULE or not lib:
+            continue
+        b, hops = t["wrapped_type"], 0
+        while b in mc.recs["types"] and mc.recs["types"][b]["flags"] & F.TF_TYPEDEF and hops < 100:
+            b, hops = mc.recs["types"][b]["wrapped_type"], hops + 1
+        bt = mc.recs["types"].get(b)
+        if bt is not None and bt["flags"] & F.TF_GLOBAL:
+            bl = mc.owner[("types", b)][0]
+            if bl and bl != lib:
+                edges.add((lib.decode(), bl.decode()))
     for i, t in mc.recs["types"].items():
         lib, mod = mc.owner[("types", i)]
         if not (t["flags"] & F.TF_GLOBAL) or mod.decode() != MODULE or not lib:
@@ -372,8 +394,6 @@ def model_graph(dbs):
         L = lib.decode()
         libs.add(L)
         targets = [d["base"] for d in t["derivations"]]
-        if t["flags"] & F.TF_TYPEDEF:
-            targets.append(t["wrapped_type"])
         seen = set()
         while targets:
             b = targets.pop()
@@ -390,6 +410,8 @@ def model_graph(dbs):
             bl = mc.owner[("types", b)][0]
             if bl and bl.decode() != L:
                 edges.add((L, bl.decode()))
+    # a library that is not part of the module cannot be ordered
+    edges = set(e for e in edges if e[0] in libs and e[1] in libs)
     return libs, edges
 
 
